@@ -186,7 +186,7 @@ Definition d18c_trace : list wev :=
    EFrame (FReply (Some 2%N) false (Some 8%N)); ERAddActive;
    EUnsubRemove 0 1; ECallReg 1; ECallSend 1 true;
    EFrame (FReply (Some 3%N) false None); ERDeliver; ECallRecv 1; ECallRemove 1;
-   EUnsubAfterCall 0; EUnsubClose 0;
+   EUnsubAfterCall 0 true; EUnsubClose 0;
    EFrame (FNotif (Some 7%N) 99%N)].
 Example d18c_trace_now_covered :
   match wrun d18c_trace winit with
